@@ -108,7 +108,7 @@ Ltac proj_red1 :=
   cbv beta iota zeta delta [fst snd hs HostV0.h_state HostV0.h_logs HostV0.h_limit HostV0.h_ext HostV0.h_frames
                             with_state with_logs with_actions with_frames with_balance with_ext
                             HostV1.x_rv HostV1.x_is HostV1.is_entries HostV1.x_entrypoint
-                            with_is with_rv with_params with_hash with_flags is_set_changed is_with_entries
+                            with_is with_rv with_params with_hash with_flags with_exp is_set_changed is_with_entries
                             is_push_handle] in *.
 
 Ltac entries_close :=
